@@ -610,6 +610,7 @@ class SimTransport(asyncio.transports._FlowControlMixin):
         self._reset_received = False
         self.created_at = loop._vtime
         self.closed_at = None
+        self.closed_step = None
         self.last_write_at = None
         self.bytes_written = 0
         self.bytes_received = 0
@@ -883,6 +884,7 @@ class SimTransport(asyncio.transports._FlowControlMixin):
         self._reading = False
         self.close_reason = self.close_reason or "close"
         self.closed_at = self._loop._vtime
+        self.closed_step = self._loop.steps
         # unread data in the kernel buffer at close() time -> the kernel sends RST, not FIN
         if self._rcv_bytes > 0:
             self._close_with_rst = True
@@ -914,6 +916,7 @@ class SimTransport(asyncio.transports._FlowControlMixin):
             self._closing = True
             self._reading = False
             self.closed_at = self._loop._vtime
+            self.closed_step = self._loop.steps
         self.close_reason = self.close_reason or ("reset" if exc is not None else "abort")
         self._rcvbuf.clear()
         self._rcv_bytes = 0
